@@ -63,6 +63,14 @@ static void add_adversarial(void) {
         }
     }
 }
+/* a legal header line longer than the default field limit (18 000 bytes): the limit is documented as the size of the line buffer, i.e. it only applies
+ * to a line that is not complete in the chunk it arrives in (single cuts only: 18 k positions) */
+static void add_long(void) {
+    exch *e = ex_new(); snprintf(e->name, sizeof e->name, "long header value above the default field limit (18100 bytes)");
+    hb_puts(&e->q, "GET /long HTTP/1.1\r\nHost: h\r\nX-Long: "); for (int i = 0; i < 18100; i++) hb_putc(&e->q, 'a' + i % 23); hb_puts(&e->q, "\r\n\r\n");
+    hb_puts(&e->r, "HTTP/1.1 200 OK\r\nContent-Length: 2\r\n\r\nok");
+    e->nb = 1; e->qend[0] = e->q.n; e->rend[0] = e->r.n;
+}
 static void add_micro(void) {
     /* streams short enough for all 2^(n-1) partitions */
     exch *e = ex_new(); snprintf(e->name, sizeof e->name, "micro HTTP/0.9"); hb_puts(&e->q, "GET /zz\r\n"); hb_puts(&e->r, "hello\r\nx"); e->nb = 1; e->qend[0] = e->q.n; e->rend[0] = e->r.n;
@@ -184,6 +192,7 @@ static void mode_seg(int argc, char **argv) {
     } else {
         gx_enum_deviations(1, add_gen_pair, NULL);
         add_adversarial();
+        if (!seg_ilv) add_long();
         first_micro = NEX;
         add_micro();
     }
@@ -202,8 +211,9 @@ static void mode_seg(int argc, char **argv) {
         if (i < 3) { static hx_buf sb; hb_reset(&sb); hb_printf(&sb, "exchange \"%s\": request %zu bytes, response %zu bytes; every cut set of size <= %d compared with the uncut run; e.g. request=", cur_ex->name, cur_ex->q.n, cur_ex->r.n, layers); hb_esc(&sb, cur_ex->q.p, cur_ex->q.n > 160 ? 160 : cur_ex->q.n); hb_term(&sb); hx_emit_sample((char *) sb.p); }
         int np = cx_all_positions(pos, cur_ex->q.n, cur_ex->r.n);
         if (seg_ilv) { seg_visit_ilv(NULL, 0, NULL); cx_enum_cuts(pos, np, seg_ilv - 1, 0, seg_visit_ilv, NULL); continue; }
-        cx_enum_cuts(pos, np, layers >= 2 ? 2 : 1, 0, seg_visit, NULL);
-        if (layers >= 3) {
+        int big = cur_ex->q.n + cur_ex->r.n > 4000;          /* very long exchanges: single cuts and coarse uniform delivery only */
+        cx_enum_cuts(pos, np, layers >= 2 && !big ? 2 : 1, 0, seg_visit, NULL);
+        if (layers >= 3 && !big) {
             size_t tot = cur_ex->q.n + cur_ex->r.n;
             /* triples: all of them on small exchanges, otherwise within a window */
             int cur[8];
@@ -216,7 +226,7 @@ static void mode_seg(int argc, char **argv) {
             }
         }
         static const size_t K[] = { 1, 2, 3, 7 };
-        for (int k = 0; k < 4; k++) { cx_build_uniform(&S, cur_ex->q.p, cur_ex->q.n, cur_ex->r.p, cur_ex->r.n, K[k], 1); run_and_compare("uniform chunks"); }
+        for (int k = 0; k < 4; k++) { if ((cur_ex->q.n + cur_ex->r.n) / K[k] + 8 > HX_MAXOPS) continue; cx_build_uniform(&S, cur_ex->q.p, cur_ex->q.n, cur_ex->r.p, cur_ex->r.n, K[k], 1); run_and_compare("uniform chunks"); }
         if (i >= first_micro) partitions(cur_ex);
     }
     hx_emit_stat("exchanges", NEX / hx_shard_n + (hx_shard_i < NEX % hx_shard_n));
